@@ -27,6 +27,7 @@ VERUS_RLIMIT = os.environ.get("VERIF_VERUS_RLIMIT", "100")
 
 VERIF_ERR_PATTERNS = [
     (r'^precondition not met', 'pre'),
+    (r'^precondition not satisfied', 'pre'),
     (r'^possible arithmetic underflow/overflow', 'overflow'),
     (r'^possible bit shift underflow/overflow', 'shift'),
     (r'^possible division by zero', 'divzero'),
